@@ -298,15 +298,26 @@ def build(fam):
         loops={0: LoopSpec(lambda L: [], mods=())}, props={"C04"}))
 
     # ------------------------------------------------------------------ __check_loop
+    def not_a_node(v):
+        return And(v != NONE, Not(isn(v)))
+
     def loop_cond(c):
-        return And(c.node != NONE, Or(c.node == c.self, c.S0.A(c.self, c.node)))
+        return And(c.node != NONE, isn(c.node), Or(c.node == c.self, c.S0.A(c.self, c.node)))
 
     def cl_req(c):
-        return base_req(c) + [Clause("candidate-is-node-or-None", Or(c.node == NONE, isn(c.node)))]
-    fam.add(Spec(fam, fam.attr("__check_loop"), "method", [("self", "ref"), ("node", "ref")], cl_req, [
-        Outcome("return", "return", lambda c, S1, r: [], when=lambda c: Not(loop_cond(c)), mods=()),
+        if fam.typecheck:
+            return base_req(c) + [Clause("candidate-is-node-or-None", Or(c.node == NONE, isn(c.node)))]
+        return base_req(c)
+    cl_outcomes = [
+        Outcome("return", "return", lambda c, S1, r: [], when=lambda c: And(Not(loop_cond(c)), Not(not_a_node(c.node))), mods=()),
         Outcome("LoopError", "raise", lambda c, S1, r: [], exc="LoopError", when=loop_cond, mods=()),
-    ], props={"C02"}))
+    ]
+    if not fam.typecheck:
+        # LightNodeMixin has no type check: an object that is not a tree node fails on its first use as one, before anything changed
+        cl_outcomes.append(Outcome("not-a-node", "raise", lambda c, S1, r: [], exc="AttributeError", when=lambda c: not_a_node(c.node), mods=()))
+    sp_cl = Spec(fam, fam.attr("__check_loop"), "method", [("self", "ref"), ("node", "ref")], cl_req, cl_outcomes, props={"C02", "C03"})
+    sp_cl.nonnode_raises = not fam.typecheck
+    fam.add(sp_cl)
 
     # ------------------------------------------------------------------ __detach
     def detach_req(c):
@@ -418,14 +429,12 @@ def build(fam):
         props={"C01", "C02"}))
     # ------------------------------------------------------------------ parent setter  (C01 C02 C03 C16)
     def ps_req(c):
-        r = base_req(c)
-        if not fam.typecheck:
-            # LightNodeMixin has no type check: the property is stated for tree-node arguments
-            r.append(Clause("value-is-node-or-None", Or(c.value == NONE, isn(c.value))))
-        return r
+        return base_req(c)
 
     def ps_tree_cond(c):
-        return And(c.value != NONE, Not(isn(c.value))) if fam.typecheck else BoolVal(False)
+        # an argument that is neither None nor a tree node: NodeMixin refuses it with TreeError; LightNodeMixin has no check of its
+        # own and fails with AttributeError in __check_loop - in both cases before anything changed (C03: "every invalid argument")
+        return And(c.value != NONE, Not(isn(c.value)))
 
     def ps_loop_cond(c):
         return And(Not(ps_tree_cond(c)), c.value != NONE, Or(c.value == c.self, c.S0.A(c.self, c.value)))
@@ -490,6 +499,8 @@ def build(fam):
     ps_outcomes = []
     if fam.typecheck:
         ps_outcomes.append(Outcome("TreeError", "raise", ps_refused, exc="TreeError", when=ps_tree_cond, mods=()))
+    else:
+        ps_outcomes.append(Outcome("not-a-node", "raise", ps_refused, exc="AttributeError", when=ps_tree_cond, mods=()))
     ps_outcomes += [
         Outcome("LoopError", "raise", ps_refused, exc="LoopError", when=ps_loop_cond, mods=()),
         Outcome("return", "return", ps_post, when=ps_ok),
